@@ -20,7 +20,7 @@ def run(tier, replay):
     work = V.scratch()
     bins = V.build(["dbt"], work)
     nontrivial = set()
-    modes = [("kth", c.seed, [])]
+    modes = [("kth", c.seed, []), ("txnfail", c.seed, [])]     # txnfail: failing calls as later writes of a session transaction
     for i in range(1 if tier == "quick" else 6):
         modes.append(("hist", c.seed * 1000 + i, [60, 30] if tier == "quick" else [250, 40]))
     # C02 is decided by the direct observation (failed call => nothing changed) and, for multi-item
